@@ -305,6 +305,10 @@ def bselect(name, ra, dec, tags):
         return idx[:1]
     if name == "dup":
         return np.array([0, 9, 0])          # (10,20) three times, two distinct storage slots
+    if name == "runs":
+        # the same position several times IN A ROW in the first list (with a per-point scale each of them has its own
+        # search circle): (10,20) x3, its duplicate slot x2, another point x2, (10,20) again
+        return np.array([0, 0, 0, 9, 9, 5, 5, 0])
     if name == "even":
         return idx[::2]
     if name == "odd":
@@ -769,13 +773,16 @@ def main(ctx):
     BINS = [(0.1, 1.0, 2), (0.01, 10.0, 3), (0.5, 5.0, 1), (0.001, 180.0, 5), (0.1, 60.0, 3), (0.2, 120.0, 2)]
     if not ctx.quick:
         BINS += [(0.03, 3.0, 4), (0.2, 20.0, 2), (1.0, 100.0, 2), (0.04, 0.06, 1), (0.002, 0.2, 7)]
-    SCALES = [None, 25.0, ("one", 25.0), ("lin", 20.0, 40.0)]
+    # (per-point scales rising, falling and alternating: a smaller scale means a LARGER search circle)
+    SCALES = [None, 25.0, ("one", 25.0), ("lin", 20.0, 40.0), ("lin", 40.0, 10.0), ("zig", 40.0, 8.0)]
 
     def scale_value(sc, n1):
         if sc is None or isinstance(sc, float):
             return sc
         if sc[0] == "one":
             return np.array([sc[1]])
+        if sc[0] == "zig":
+            return np.array([sc[1] if i % 2 == 0 else sc[2] for i in range(n1)], dtype="f8")
         return np.linspace(sc[1], sc[2], n1)
 
     def one_bincount(case, rec):
@@ -873,14 +880,14 @@ def main(ctx):
         if sc is None:
             ang = rmax
         else:
-            ang = rmax / (sc if isinstance(sc, float) else sc[1]) * 180.0 / np.pi
+            ang = rmax / (sc if isinstance(sc, float) else min(sc[1:])) * 180.0 / np.pi
         if ang > 180.0:
             return False
         return depth <= 6 or ang <= 64 * 90.0 / 2 ** depth
 
     PAIRS_Q = [("all", "all"), ("base", "all"), ("all", "base"), ("one", "all"), ("all", "one"), ("polar", "all"),
                ("seam", "seam"), ("even", "odd"), ("dup", "dup"), ("base", "dest"), ("north", "south"),
-               ("dest", "rev"), ("anchor", "edges")]
+               ("dest", "rev"), ("anchor", "edges"), ("runs", "all"), ("runs", "local")]
     PAIRS_T = PAIRS_Q + [("odd", "even"), ("south", "north"), ("dest", "base"), ("all", "polar"), ("seam", "all"),
                          ("all", "seam"), ("dup", "all"), ("all", "dup"), ("rev", "all"), ("local", "local")]
     bunits = []
